@@ -11,6 +11,7 @@ import traceback
 REGISTRY = {
     "C03": ("p_matryoshka", "C03"),
     "C04": ("p_matryoshka", "C04"),
+    "C05": ("p_formula", "C05"),
     "C06": ("p_formulasync", "C06"),
     "C07": ("p_resampler", "C07"),
     "C08": ("p_resampler", "C08"),
@@ -18,6 +19,7 @@ REGISTRY = {
     "C10": ("p_actor", "C10"),
     "C11": ("p_powermanager", "C11"),
     "C12": ("p_graphformulas", "C12"),
+    "C13": ("p_formula", "C13"),
     "C14": ("p_powerdist", "C14"),
     "C15": ("p_results", "C15"),
     "C16": ("p_batterystatus", "C16"),
